@@ -76,6 +76,23 @@ def lean_stage(prop: str, extra_modules=()):
             if not common.DRIVER.exists():
                 raise Infra("tedriver does not build and no earlier binary exists: " + res["driver_build"][:300])
         res["build_s"] = round(time.time() - t0, 2)
+        # private copy of the driver for this run (taken under the build lock): a concurrent check or builder that
+        # relinks .lake/build/bin/tedriver cannot pull the binary from under the correspondence run
+        try:
+            import shutil
+            for stale in common.DRIVER.parent.glob("tedriver.run*"):      # left behind by a run that died
+                try:
+                    os.kill(int(stale.name.split("run")[1]), 0)
+                except (ValueError, ProcessLookupError):
+                    stale.unlink(missing_ok=True)
+                except PermissionError:
+                    pass
+            priv = common.DRIVER.with_name(f"tedriver.run{os.getpid()}")
+            shutil.copy2(common.DRIVER, priv)
+            common.DRIVER = priv
+            res["private_driver"] = str(priv)
+        except OSError:
+            pass
         files = module_files(mod)
         for pm in part_mods:
             for f in module_files(pm):
@@ -233,6 +250,11 @@ def run_check(prop: str, tier: str, seed: int) -> int:
     }
     if "leanchecker" in lean:
         cov["leanchecker"] = lean["leanchecker"]
+    try:
+        if lean.get("private_driver"):
+            os.unlink(lean["private_driver"])
+    except OSError:
+        pass
     ev = {"property_id": prop, "tier": tier, "seed": seed, "level": level, "coverage": cov,
           "assumptions": list(getattr(mod, "ASSUMPTIONS", [])), "wall_s": round(time.time() - t0, 2),
           "violations": len(unlisted) + (1 if exit_code and not unlisted else 0)}
